@@ -313,7 +313,6 @@ func c03UnionDriver(maxCases int) func(c *explore.Chooser, k int) *c03Case {
 	}
 }
 
-
 // c03TwoParamDriver: generic unions and records with TWO type parameters, instantiated at two DIFFERENT types
 // (<int, string>), so that the order of type parameters is observable everywhere it is written: the interface,
 // each case struct, each constructor (also those whose payload mentions only one of the parameters, or the
